@@ -287,6 +287,55 @@ func c04Child(c *mon.Child) {
 			c.End(key)
 		}
 	}
+	// Part A2: a fixed catch-all definition, so that every byte order mark, NUL and stray byte is a token of its own
+	if c.Batch == 0 {
+		catchAll, err := lexer.NewSimple([]lexer.SimpleRule{{Name: "Word", Pattern: `[a-zé]+`}, {Name: "NL", Pattern: `\r?\n`}, {Name: "Any", Pattern: `(?s:.)`}})
+		if err == nil {
+			rr := c.RNG("catchall")
+			pieces := []string{"\ufeff", "ab", "é", " ", "\n", "\r\n", "\x00", "世", "\ufeffx", "\xff", ";"}
+			for i := 0; i < c.N(600, 6000); i++ {
+				key := fmt.Sprintf("catchall%d", i)
+				if !c.Want(key) {
+					continue
+				}
+				in := ""
+				if i%3 == 0 {
+					in = "\ufeff" // a leading byte order mark is input like any other
+				}
+				for k := rr.Range(0, 7); k > 0; k-- {
+					in += pieces[rr.Intn(len(pieces))]
+				}
+				c.Begin(key, fmt.Sprintf("catch-all simple lexer <- %q", in))
+				c.Eval(1)
+				var toks []lexer.Token
+				var lerr error
+				mon.Guard(func() {
+					var lx lexer.Lexer
+					switch i % 3 {
+					case 0:
+						lx, lerr = catchAll.LexString("b.txt", in)
+					case 1:
+						lx, lerr = catchAll.Lex("b.txt", strings.NewReader(in))
+					default:
+						lx, lerr = catchAll.Lex("b.txt", bytes.NewReader([]byte(in)))
+					}
+					if lerr == nil {
+						toks, lerr = lexer.ConsumeAll(lx)
+					}
+				})
+				if lerr == nil && toks != nil {
+					if d := c04Oracle(toks, in, "b.txt", true); d != "" {
+						c.Violation("", key, "simple lexer with a catch-all rule: "+d+fmt.Sprintf(" | rules: Word=[a-zé]+ NL=\\r?\\n Any=(?s:.) | input: %q", in), map[string]interface{}{"input": in})
+					}
+					if strings.Contains(in, "\ufeff") {
+						c.Nontrivial("catchall:" + in)
+						c.Feature("inputs_with_a_byte_order_mark_lexed_as_tokens")
+					}
+				}
+				c.End(key)
+			}
+		}
+	}
 	// Part B: the text/scanner based lexers, through every constructor.
 	nScan := c.N(20000, 400000)
 	r := c.RNG("scan")
